@@ -120,7 +120,7 @@ PLAN = {
                    T("hyp", (150, 3000), (2, 6), env={"C01_ONLY": "1"}), T("angles", (150, 3000), (1, 4), env={"C01_ONLY": "1"}),
                    T("grid07", (64, 16), (4, 16)),
                    T("prog_elem", (150, 5000), (8, 14), env={"C01_ONLY": "1"}),
-                   T("lattice_add", (4096, 112), (2, 14)), T("lattice_mul", (8192, 224), (2, 14)), T("lattice_div", (16384, 224), (2, 14)), T("lattice_un", (64, 14), (4, 14))],
+                   T("lattice_add", (4096, 112), (2, 14)), T("lattice_mul", (8192, 224), (2, 14)), T("lattice_div", (16384, 224), (2, 14)), T("lattice_un", (64, 14), (4, 14)), T("exp_nodes", (4, 14), (4, 14), env={"C01_ONLY": "1"})],
     },
     "C11": {
         "level": "exploration",
@@ -156,10 +156,10 @@ PLAN = {
     },
     "C14": {
         "level": "exploration",
-        "rule": RULE_TRACE + "; exp/exp2/exp_m1/powf against rigorous ball enclosures (Taylor series with explicit remainder, argument reduction with an enclosure of ln 2) computed in TLA+; stratified over every entry of the exp(n/128)-1, exp(1/2)^n, exp(16)^n tables and both sides of each range switch",
+        "rule": RULE_TRACE + "; exp/exp2/exp_m1/powf against rigorous ball enclosures (Taylor series with explicit remainder, argument reduction with an enclosure of ln 2) computed in TLA+; stratified over every entry of the exp(n/128)-1, exp(1/2)^n, exp(16)^n tables and both sides of each range switch" + "; exp_nodes = exp (and a sample of sinh, cosh, tanh, exp_m1) at the exact NODES of the lookup tables: x = y/2 for every integer y the reduction can produce, x = n/128 for every entry of the exp(n/128)-1 table, every exp(16)^a entry x every n/128, with a zero and with tiny low words: each table entry is then used bare or in a single product (complete in both tiers)",
         "models": [MC("MC_P4_expflow.cfg", W_EXPFLOW), MC("MC_P4_powfflow.cfg", W_POWF), MC("MC_P4_exp2scale.cfg", W_EXP2SCALE, slices=8), MC("MC_P4_exp2flow.cfg", W_EXP2FLOW, slices=8),
                    MC("MC_P5_expflow.cfg", W_EXPFLOW, "thorough"), MC("MC_P5_powfflow.cfg", W_POWF, "thorough"), MC("MC_P5_exp2scale.cfg", W_EXP2SCALE, "thorough"), MC("MC_P5_exp2flow.cfg", W_EXP2FLOW, "thorough")],
-        "traces": [T("exps", (250, 5000), (14, 14))],
+        "traces": [T("exps", (250, 5000), (14, 14)), T("exp_nodes", (14, 14), (14, 14))],
     },
     "C15": {
         "level": "exploration",
